@@ -171,6 +171,13 @@ func (b *Buffer) WriteByte(s byte) error {
 func (b *Buffer) WriteRune(s rune) error {
 	b.startWrite()
 	l := utf8.RuneLen(s)
+	if l < 0 {
+		// Not a valid rune (surrogate half, negative or out of range):
+		// write the replacement character, like utf8.EncodeRune and
+		// bytes.Buffer do.
+		s = utf8.RuneError
+		l = utf8.RuneLen(s)
+	}
 	m, ok := b.tryGrowByReslice(l)
 	if !ok {
 		m = b.grow(l)
